@@ -147,6 +147,29 @@ def gen_trace(recipe):
       events.append({'ev': 'PreprocCall', 'method': meth, 'size': int(size), 'T': [[int(v) + 1 for v in r] for r in T],
                      'digests': digs, 'exc': '', 'calls': calls, 'formed_calls': len(c2.calls),
                      'dtype': np.dtype(dt).name})
+  # ---- the same objects again after set_params(preprocessor=<other store>): indices now denote OTHER points
+  storeB = gen.grid(store * 1.5 + rng.normal(size=store.shape) * 0.25)
+  cB = Counting(storeB)
+  prepsB = {'formed': None, 'array': storeB, 'list': storeB.tolist(), 'callable': cB}
+  repsB = {}
+  for rname, prep in prepsB.items():
+    est = ests[rname]
+    try:
+      est.set_params(preprocessor=prep)
+      argB = storeB[idx] if rname == 'formed' else idx
+      gen.fit_quiet(est, argB, *rest)
+      repsB[rname] = state_digest(est)
+    except Exception as e:
+      repsB[rname] = 'EXC:' + type(e).__name__
+  if not all(v == 'EXC:RuntimeError' for v in repsB.values()):
+    events.append({'ev': 'PreprocCall', 'method': 'fit', 'size': int(size), 'T': Trows, 'digests': repsB, 'exc': '',
+                   'calls': [], 'formed_calls': 0, 'dtype': 'refit_after_set_params'})
+  for rname in ests:                      # back to the original stores for the error cases below
+    ests[rname].set_params(preprocessor=preps[rname])
+    try:
+      gen.fit_quiet(ests[rname], store[idx] if rname == 'formed' else idx, *rest)
+    except Exception:
+      pass
   # ---- a raising callable surfaces as PreprocessorError
 
   def bad(idx):
